@@ -131,6 +131,14 @@ class _Instance:
         but allows for in-place modification of the `conns` dict, e.g. while iterating over its items.
         """
 
+        from .bundle import AnonymousBundle
+
+        if isinstance(conn, Dict):
+            # Special-case dictionaries of connectables into Anon Bundles, as `connect` does
+            conn = AnonymousBundle(**conn)
+        if not is_connectable(conn):
+            raise TypeError(f"{self} attempting to connect non-connectable {conn}")
+
         connref = _get_connref(self, portname)
         # Get a reference to the old connection in the `conns` dict, without removing it
         old = self.conns[portname]
